@@ -94,7 +94,7 @@ int World::exec_meta(const Op &op) {
     if (op.kind == OP_prop_delete) {
         Section s = section_at(a[0]); if (!s) return 2;
         Property p = prop_at(a[0], a[1]); if (!p) return 2;
-        take_victim_handles(p.id());
+        take_victim_handles(p.id()); last_deleted_name = p.name();
         { Kept k; k.kind = 8; k.property = p; k.id = p.id(); k.session = session; del_handles.push_back(k); }
         int how = ((unsigned) a[2]) % 3;
         arg_class = how == 0 ? "by-name" : how == 1 ? "by-id" : "by-handle";
@@ -182,6 +182,9 @@ int create_frame_op(World &w, const Op &op) {
     // extensions of one another (a column is looked up by name)
     static const char *cn[] = {"c", "c0", "c01", "rate", "rate_hz", "Rate", "r", "x y", "x", "\xc2\xb5", "time", "time ", "t", "value", "values", "v"};
     bool pool_names = r.chance(1, 2);
+    // wide frames: one frame in ten has more columns than a machine word has bits (per-column bookkeeping in masks, fixed-size tables) -
+    // next to 32 and 64 as often as anywhere else
+    if (r.chance(1, 10)) { ncols = r.chance(1, 2) ? r.range(9, 70) : (r.chance(1, 2) ? 32 : 64) + r.range(-1, 2); pool_names = false; }
     std::vector<int> order; for (int i = 0; i < 16; i++) order.push_back(i);
     for (int i = 15; i > 0; i--) { int j = (int) r.below((uint64_t) i + 1); std::swap(order[(size_t) i], order[(size_t) j]); }
     for (int i = 0; i < ncols; i++) { Column c; c.name = pool_names ? std::string(cn[order[(size_t) i]]) : "c" + std::to_string(i); c.unit = cu[r.below(r.chance(1, 2) ? 4 : 12)]; c.dtype = kVarTypes[r.below(7)]; cols.push_back(c); }
@@ -201,7 +204,7 @@ int create_frame_op(World &w, const Op &op) {
     FrameModel m; m.cols = cols;
     if (w.live.size() < 48) { Kept k; k.kind = 2; k.id = df.id(); k.session = w.session; k.frame = df; w.live["2:" + k.id] = k; }   // the creating handle lives on
     w.frame[df.id()] = m;
-    w.cnt.inc("frame.create.cols" + std::to_string(ncols));
+    w.cnt.inc(ncols <= 8 ? "frame.create.cols" + std::to_string(ncols) : ncols <= 32 ? "frame.create.cols9-32" : "frame.create.cols33-70");
     return 0;
 }
 
